@@ -708,6 +708,11 @@ func (rt *runtime) toValue(value interface{}) Value {
 			typ := val.Type()
 
 			return objectValue(rt.newNativeFunction(name, file, line, func(c FunctionCall) Value {
+				if val.IsNil() {
+					// reflect would panic on calling a nil func value.
+					panic(rt.panicTypeError("cannot call a nil Go function"))
+				}
+
 				nargs := typ.NumIn()
 
 				if len(c.ArgumentList) != nargs {
